@@ -1,0 +1,67 @@
+//! Verification hook (only compiled with `--cfg libp2p_verif`): thin public wrappers around the
+//! module-private `Registrations` store of the rendezvous server so that a model checker can
+//! drive `add` / `remove` / `get` / `poll` directly. The code that runs is the production code.
+//!
+//! This module is a child of `server` (declared there under `cfg(libp2p_verif)`), together with
+//! a cfg-switched alias that makes `futures_timer::Delay` inside `server` resolve to the
+//! virtual-clock `libp2p_swarm::verif_delay::Delay`.
+
+use std::task::{Context, Poll};
+
+use libp2p_core::PeerRecord;
+use libp2p_identity::PeerId;
+
+use super::{Config, ExpiredRegistration, Registrations};
+use crate::codec::{Cookie, ErrorCode, Namespace, NewRegistration, Registration, Ttl};
+
+pub struct VRegistrations(Registrations);
+
+impl VRegistrations {
+    pub fn new(config: Config) -> Self {
+        VRegistrations(Registrations::with_config(config))
+    }
+
+    /// `Registrations::add`
+    pub fn add(
+        &mut self,
+        namespace: Namespace,
+        record: PeerRecord,
+        ttl: Option<Ttl>,
+    ) -> Result<Registration, ErrorCode> {
+        self.0.add(NewRegistration::new(namespace, record, ttl))
+    }
+
+    /// `Registrations::remove`
+    pub fn remove(&mut self, namespace: Namespace, peer_id: PeerId) {
+        self.0.remove(namespace, peer_id)
+    }
+
+    /// `Registrations::get`; `Err(())` = `CookieNamespaceMismatch`
+    pub fn get(
+        &mut self,
+        namespace: Option<Namespace>,
+        cookie: Option<Cookie>,
+        limit: Option<u64>,
+    ) -> Result<(Vec<Registration>, Cookie), ()> {
+        match self.0.get(namespace, cookie, limit) {
+            Ok((regs, cookie)) => Ok((regs.cloned().collect(), cookie)),
+            Err(_) => Err(()),
+        }
+    }
+
+    /// `Registrations::poll`
+    pub fn poll(&mut self, cx: &mut Context<'_>) -> Poll<Registration> {
+        self.0
+            .poll(cx)
+            .map(|ExpiredRegistration(registration)| registration)
+    }
+
+    /// Sizes of the internal tables: (registrations_for_peer, registrations, cookies).
+    pub fn sizes(&self) -> (usize, usize, usize) {
+        (
+            self.0.registrations_for_peer.len(),
+            self.0.registrations.len(),
+            self.0.cookies.len(),
+        )
+    }
+}
